@@ -211,7 +211,7 @@ def c11(run, tier):
     if tier == "quick":
         f, byid = fam(run, tier, (2, 2, 2, True, True), 60, None)
     else:
-        f, byid = fam(run, tier, None, None, (2, 2, 2, True, True), None)
+        f, byid = fam(run, tier, None, None, (2, 2, 2, True, True), 400)
     recs = gc.model_check(run, f, gc.goals_atoms_and_not, {"MaxOps": 2, "Kinds": ["solve", "limited"], "MaxStop": 2 if tier == "quick" else 3,
                                                           "Invariants": ["ResultsCorrect", "DeviationShape", "EnginePanicShape", "InterruptSafe", "BoundedWork"]}, "C11")
     recs = [r for r in recs if any(x["kind"] == "limited" for x in r["results"])]
